@@ -6,6 +6,8 @@ import numpy as np
 
 from vmon import gen, instr, models, oracles, scen
 
+from vmon.scale import S
+
 ID = 'C20'
 RULE = ('cases = every public entry point of the mixture, beamforming, masking, alignment, metric and initialiser modules (registry built by '
         'introspection and matched against a table of argument generators) called (a) with read-only argument arrays and (b) with writable '
@@ -280,14 +282,14 @@ def public_surface():
 
 def plan(tier, seed):
     rng = np.random.default_rng([seed, 120])
-    reps = 3 if tier == 'quick' else 40
+    reps = S(tier, 3, 40)
     cases = [dict(lane='registry', rs=[seed, 20, 0])]
     i = 1
     names = sorted(build_registry_names())
     for name in names:
         for r in range(reps if not name.startswith(('cbmm', 'trainer:bingham', 'dist:bingham')) else max(1, reps // 3)):
             cases.append(dict(lane='entry', name=name, rs=[seed, 21, i])); i += 1
-    h = 40 if tier == 'quick' else 400
+    h = S(tier, 40, 400)
     for r in range(h):
         cases.append(dict(lane='history', kind=['cacgmm', 'cwmm', 'cbmm', 'gmm', 'vmfmm', 'gcacgmm', 'vmfcacgmm', 'T:watson', 'T:bingham', 'T:cacg', 'T:gauss', 'T:vmf'][r % 12],
                           n_before=int(rng.integers(1, 6)), rs=[seed, 22, i])); i += 1
